@@ -41,20 +41,20 @@ var c09FmtBodies = []struct {
 }{
 	{"newline", []string{"\n", "\n  x"}},
 	{"$", []string{"$"}}, {"%", []string{"%"}}, {"&", []string{"&"}}, {"|", []string{"|"}}, {"~", []string{"~"}},
-	{"(", []string{"(~a~)", "(", "(~)", "(x~:)", "(~(~a~)~)"}},
+	{"(", []string{"(~a~)", "(", "(~)", "(x~:)", "(~(~a~)~)", "(~a", "(~a)", "(~a~"}},
 	{")", []string{")"}},
 	{"*", []string{"*", "*~a"}},
 	{"/", []string{"/car/", "/nosuch/", "/", "/c09-pkg:x/", "//"}},
-	{"<", []string{"<~a~;~a~>", "<", "<~>", "<~a~>", "<~a~:;~a~>", "<x~;y~;z~>"}},
+	{"<", []string{"<~a~;~a~>", "<", "<~>", "<~a~>", "<~a~:;~a~>", "<x~;y~;z~>", "<~a~;", "<~a~;>", "<~a", "<~;~;~>"}},
 	{">", []string{">"}},
 	{"=", []string{"=(+ 1 2)~=", "=", "=\"a\"~=", "=)~=", "=~="}},
 	{"?", []string{"?"}},
 	{"A", []string{"A", "a"}}, {"B", []string{"B"}}, {"C", []string{"C"}}, {"D", []string{"D", "d"}}, {"E", []string{"E"}}, {"F", []string{"F"}},
 	{"G", []string{"G"}}, {"I", []string{"I"}}, {"O", []string{"O"}}, {"P", []string{"P"}}, {"R", []string{"R", "r"}}, {"S", []string{"S"}},
 	{"T", []string{"T"}}, {"W", []string{"W"}}, {"X", []string{"X"}},
-	{"[", []string{"[zero~;one~:;other~]", "[", "[~]", "[a~;b~]", "[~a~]", "[a~;~]"}},
+	{"[", []string{"[zero~;one~:;other~]", "[", "[~]", "[a~;b~]", "[~a~]", "[a~;~]", "[a~;]", "[a~;;b~]", "[a~;", "[a~:;]", "[a~;~[x~;y~]~;c~]", "[~;~;~]"}},
 	{"]", []string{"]"}},
-	{"{", []string{"{~a~}", "{", "{~}", "{~a~^,~}", "{~a ~a~}", "{~}~a"}},
+	{"{", []string{"{~a~}", "{", "{~}", "{~a~^,~}", "{~a ~a~}", "{~}~a", "{~a", "{~a}", "{~a~:}", "{~{~a~}~}"}},
 	{"}", []string{"}"}},
 	{"^", []string{"^", "^x"}},
 	{";", []string{";"}},
@@ -66,7 +66,7 @@ var c09FmtMods = []string{"", ":", "@", ":@", "@:", "::", "@@"}
 
 // parameter shapes (class label, text)
 var c09FmtParams = [][2]string{
-	{"-", ""}, {"n", "5"}, {"0", "0"}, {"neg", "-1"}, {"v", "v"}, {"#", "#"}, {"'c", "'x"}, {"n,n", "5,3"}, {",,'c", ",,'*"}, {"v,v", "v,v"},
+	{"-", ""}, {"n", "5"}, {"0", "0"}, {"neg", "-1"}, {"v", "v"}, {"#", "#"}, {"'c", "'x"}, {"n,n", "5,3"}, {"n,0", "5,0"}, {"0,0", "0,0"}, {",,'c", ",,'*"}, {"v,v", "v,v"},
 	{"n*8", "1,2,3,4,5,6,7,8"}, {"big", "100000"}, {"overflow", "99999999999999999999"}, {",", ","}, {"'", "'"}, {"n,", "5,"}, {"-", "-"}, {"+n", "+5"}, {"V", "V"},
 }
 
@@ -162,6 +162,10 @@ type c09FmtCase struct {
 	ctl   string
 	args  []int
 	table bool
+	// seeded composites: the text of every part (directive instances and literal text) and the
+	// label of the part ("" for literal text); nil for table cases and mutated strings
+	parts  []string
+	labels []string
 }
 
 func (fc c09FmtCase) sig(kind string) string {
@@ -174,7 +178,7 @@ func c09FmtTable(thorough bool) []c09FmtCase {
 	n := len(c09FmtArgs)
 	for _, in := range c09FmtInstances() {
 		lab := []string{in.label()}
-		out = append(out, c09FmtCase{lab, in.text, nil, true})
+		out = append(out, c09FmtCase{segs: lab, ctl: in.text, table: true})
 		// a huge integer consumed by a v parameter is a repeat / padding count: those cells run
 		// until the memory cap, so they are tried in c09FmtHuge only, not in the cross product
 		vparam := strings.ContainsAny(in.pclass, "vV")
@@ -183,7 +187,7 @@ func c09FmtTable(thorough bool) []c09FmtCase {
 			if hugeArg(a) {
 				continue
 			}
-			out = append(out, c09FmtCase{lab, in.text, []int{a}, true})
+			out = append(out, c09FmtCase{segs: lab, ctl: in.text, args: []int{a}, table: true})
 		}
 		// two arguments matter only when the instance can consume two: a v parameter, or a body
 		// with more than one directive / a block / ~? / ~* (quick tier; thorough: always)
@@ -194,18 +198,18 @@ func c09FmtTable(thorough bool) []c09FmtCase {
 				if hugeArg(a) || (in.pclass == "v,v" && hugeArg(b)) {
 					continue
 				}
-				out = append(out, c09FmtCase{lab, in.text, []int{a, b}, true})
+				out = append(out, c09FmtCase{segs: lab, ctl: in.text, args: []int{a, b}, table: true})
 			}
 		}
 	}
 	for _, h := range c09FmtHuge {
 		lab := []string{"huge " + h}
-		out = append(out, c09FmtCase{lab, h, nil, true})
-		out = append(out, c09FmtCase{lab, h, []int{3}, true})
-		out = append(out, c09FmtCase{lab, h, []int{13}, true})
+		out = append(out, c09FmtCase{segs: lab, ctl: h, table: true})
+		out = append(out, c09FmtCase{segs: lab, ctl: h, args: []int{3}, table: true})
+		out = append(out, c09FmtCase{segs: lab, ctl: h, args: []int{13}, table: true})
 		// the same count given through a v parameter
 		hv := strings.Replace(h, "99999999999", "v", 1)
-		out = append(out, c09FmtCase{[]string{"huge " + hv}, hv, []int{5, 3}, true})
+		out = append(out, c09FmtCase{segs: []string{"huge " + hv}, ctl: hv, args: []int{5, 3}, table: true})
 	}
 	return out
 }
@@ -224,6 +228,7 @@ func c09FmtSeeded(rng *lib.Rng, n int, skip func(label string) bool) []c09FmtCas
 			if rng.Chance(25) {
 				lit := []string{"x", " ", "abc ", "\n", "é", "~~"}[rng.Intn(6)]
 				b.WriteString(lit)
+				fc.parts, fc.labels = append(fc.parts, lit), append(fc.labels, "")
 				continue
 			}
 			in := insts[rng.Intn(len(insts))]
@@ -231,6 +236,7 @@ func c09FmtSeeded(rng *lib.Rng, n int, skip func(label string) bool) []c09FmtCas
 				continue
 			}
 			fc.segs = append(fc.segs, in.label())
+			fc.parts, fc.labels = append(fc.parts, in.text), append(fc.labels, in.label())
 			b.WriteString(in.text)
 		}
 		fc.ctl = b.String()
@@ -253,6 +259,7 @@ func c09FmtSeeded(rng *lib.Rng, n int, skip func(label string) bool) []c09FmtCas
 			}
 			fc.ctl = string(bs)
 			fc.segs = []string{"mutated"}
+			fc.parts, fc.labels = nil, nil
 			if c09DigitRun(fc.ctl) > 6 {
 				continue // a count beyond 10^6 belongs to the huge-count probes of the table
 			}
